@@ -221,6 +221,20 @@ theorem reserved_words_gram :
     keywords Generated.gramRules = Generated.gramLarkStrings ++ Generated.gramLarkRegexps := by
   decide +kernel
 
+/-! ## no state between calls -/
+
+/-- what one parser instance returns for a sequence of texts, in the model: the list of the individual results -/
+def session (env : Env) (fuel : List Tok → Nat) (entry : Str) (texts : List (Str × List Tok)) : List (Except Err Ast) :=
+  texts.map fun t => parse env (fuel t.2) t.1 t.2 entry
+
+/-- Remark-level theorem: in the model the result for a text does not depend on what was parsed before — `peek` starts at 0 in
+    every `parse`, the tokenizer is a function of the text. The real `SyntaxParser` resets `ProgreessMonitor.peek` at the start
+    of every `parse` (since the repair of the stale error position); every instance attribute is inventoried by the translator
+    (`scan_instance_state`, a new one breaks the tie) and the `history` search compares a shared instance with fresh ones. -/
+theorem parse_history_free (env : Env) (fuel : List Tok → Nat) (entry : Str) (history : List (Str × List Tok)) (t : Str × List Tok) :
+    (session env fuel entry (history ++ [t])).getLast? = some (parse env (fuel t.2) t.1 t.2 entry) := by
+  simp [session]
+
 /-! ## T3 — yield -/
 
 /-- The consumed tokens of a successful match are exactly the span under the cursor, in source order, each consumed once;
